@@ -200,6 +200,50 @@ func runC09(o Opts) error {
 			}
 			time.Sleep(T)
 		}
+		// the fixed bind port is shared by every client of the process: a second client (its own NewUHPPOTE, same bind
+		// address) that calls while the first holds the port waits its turn and then gets its controller's reply - it
+		// does not fail at once because the port is busy
+		for attempt := 0; attempt < 3; attempt++ {
+			nextIndex += 2
+			ia, ib := nextIndex-1, nextIndex
+			farm.Plan(ia, Behaviour{NoReply: true})
+			farm.Plan(ib, Behaviour{Delay: 20 * time.Millisecond})
+			uA := farmClient(farm, fixedPort, T, nil, nil)
+			uB := farmClient(farm, fixedPort, T, nil, nil)
+			var wg sync.WaitGroup
+			wg.Add(1)
+			go func() { defer wg.Done(); uA.GetEvent(800000078, ia) }()
+			time.Sleep(50 * time.Millisecond)
+			st := time.Now()
+			e, err := uB.GetEvent(800000079, ib)
+			dur := time.Since(st)
+			wg.Wait()
+			calls += 2
+			ok := err == nil && e != nil && e.Index == ib && dur <= 2*T+150*time.Millisecond
+			if ok || attempt == 2 {
+				if !ok {
+					s.Fail(map[string]any{"op": "two-clients-one-port", "fault": "two-clients-one-port", "path": "broadcast", "dur_ms": ms(dur)},
+						fmt.Sprintf("a second client calling while another client of the process held the fixed bind port returned after %d ms with %v (its controller answers 20 ms after the request; timeout %d ms)", ms(dur), err, ms(T)))
+				}
+				break
+			}
+			time.Sleep(T)
+		}
+		// 900 datagrams from other controllers in the first 0.2 s, then the addressed controller's reply, timeout 1.5 s: the
+		// reply is accepted (the call does not give up on a count of discarded datagrams)
+		{
+			nextIndex++
+			idx := nextIndex
+			farm.Plan(idx, Behaviour{Strays: 900, StrayGap: 150 * time.Microsecond})
+			u := farmClient(farm, 0, 1500*time.Millisecond, nil, nil)
+			st := time.Now()
+			e, err := u.GetEvent(800000080, idx)
+			calls++
+			if err != nil || e == nil || e.Index != idx {
+				s.Fail(map[string]any{"op": "many-strays", "fault": "many-strays", "path": "broadcast", "dur_ms": ms(time.Since(st))},
+					fmt.Sprintf("the call gave up after %d ms (timeout 1500 ms) although the addressed controller's reply followed 900 stray datagrams well before the deadline: %v", ms(time.Since(st)), err))
+			}
+		}
 		// a batch of mixed concurrent calls, then the accounting
 		specs, udpIDs, tcpIDs := genScenario(r, farm, 6, false)
 		u := farmClient(farm, 0, T, udpIDs, tcpIDs)
